@@ -923,6 +923,65 @@ func c18R5(c *Ctx) {
 		okPair = itemOK && constOK
 	}
 	c.verdict(okPair, rule, "pairing", c.pos(h.Pos()), "result[k].item is items[k] and result[k].constant is the constant", "bindConstants does not pair every item with the constant in order")
+	// the derived type: `item` has the item type of the first argument's list type, `constant` has the second argument's
+	// type as it is (the handler stores the constant unchanged, also when it is a list)
+	if th := c.Fn("builtinfunctions.HandleTypeSchemaCombine"); th != nil && len(th.Params) == 1 {
+		isItemsOf := func(v ssa.Value) bool {
+			f := loadedField(v)
+			if f == nil {
+				if fl, ok := v.(*ssa.Field); ok {
+					f = fieldValVar(fl)
+				}
+			}
+			return f != nil && fieldName(f) == "ItemsValue"
+		}
+		elemOfParam := func(idx int64) func(ssa.Value) bool {
+			return func(v ssa.Value) bool {
+				u, ok := v.(*ssa.UnOp)
+				if !ok {
+					return false
+				}
+				ia, ok := u.X.(*ssa.IndexAddr)
+				if !ok || ia.X != ssa.Value(th.Params[0]) {
+					return false
+				}
+				k, isC := constInt(ia.Index)
+				return isC && k == idx
+			}
+		}
+		itemT, constT := false, false
+		var constWhy string
+		c.eachInstrLogical(th, func(r instrRef) {
+			mu, ok := r.I.(*ssa.MapUpdate)
+			if !ok {
+				return
+			}
+			k, isC := constString(mu.Key)
+			if !isC {
+				return
+			}
+			call, ok := mu.Value.(*ssa.Call)
+			if !ok || !strings.HasSuffix(calleeName(call.Common()), "schema.NewPropertySchema") || len(call.Call.Args) == 0 {
+				return
+			}
+			t := call.Call.Args[0]
+			switch k {
+			case "item":
+				itemT = derivesFrom(t, isItemsOf)
+			case "constant":
+				fromSecond := derivesFrom(t, elemOfParam(1))
+				unwrapped := derivesFrom(t, isItemsOf)
+				constT = fromSecond && !unwrapped
+				if unwrapped {
+					constWhy = "the type of `constant` can be the ITEM type of a list-typed second argument, while the handler stores the list itself"
+				} else if !fromSecond {
+					constWhy = "the type of `constant` is not the second argument type"
+				}
+			}
+		})
+		c.verdict(itemT && constT, rule, "derived-type", c.pos(th.Pos()), "item: item type of the first argument, constant: the second argument type as it is",
+			fmt.Sprintf("the derived result type of bindConstants does not describe what the handler returns (item-type-ok=%v, constant-type-ok=%v; %s): the returned value is not of the declared type, and a legal index into a list-typed constant is refused by the type check", itemT, constT, constWhy))
+	}
 }
 
 // stringIndexOperand: v is s[i] of a string s; returns s.
